@@ -12,6 +12,11 @@ Proof. unfold gc_run. apply fold_left_app. Qed.
 Lemma gs_run_app h em : gs_run (h ++ em) = fold_left gs_step em (gs_run h).
 Proof. unfold gs_run. apply fold_left_app. Qed.
 
+Lemma gs_bad_absorbing fs : fold_left gs_step fs GsBad = GsBad.
+Proof. induction fs as [|f fs IH]; cbn; auto. Qed.
+Lemma gs_prefix_ok a b : gs_run (a ++ b) <> GsBad -> gs_run a <> GsBad.
+Proof. rewrite gs_run_app. intros H E. rewrite E, gs_bad_absorbing in H. congruence. Qed.
+
 Record ginv (strict : bool) (s : rst) : Prop := mkGinv {
   gi_k : kinv (r_k s) = true;
   gi_v : vinv strict (r_v s) = true;
@@ -22,11 +27,13 @@ Record ginv (strict : bool) (s : rst) : Prop := mkGinv {
          then no_new (q_c s) = true /\ k_new (r_k s) = true
          else q_s s = [] /\ h_s s = [] /\
               (if k_new (r_k s) then exists r, q_c s = FNew :: r /\ no_new r = true else q_c s = []);
-  gi_n : n_inv s = if h_live (r_v s) then 1 else 0
+  gi_n : n_inv s = if h_live (r_v s) then 1 else 0;
+  (* what the client's receive loop has taken so far is the part of the server's emissions that is no longer queued *)
+  gi_d : exists d, h_s s = d ++ q_s s /\ k_gin (r_k s) = gs_run d
 }.
 
 Lemma ginv_init strict : ginv strict r_init.
-Proof. constructor; try reflexivity. destruct strict; reflexivity. cbn. auto. Qed.
+Proof. constructor; try reflexivity. destruct strict; reflexivity. cbn. auto. exists []. split; reflexivity. Qed.
 
 Lemma no_new_app a b : no_new (a ++ b) = no_new a && no_new b.
 Proof. unfold no_new. apply forallb_app. Qed.
@@ -38,10 +45,11 @@ Proof. unfold h_live, seen. destruct (v_h v); auto. Qed.
 Lemma ginv_step_k strict s l k' em :
   ginv strict s -> kenv (r_k s) l = true -> kstep (r_k s) l = Some (k', em) ->
   forall qs', (seen (r_v s) = false -> qs' = q_s s) ->
+  (exists d', h_s s = d' ++ qs' /\ k_gin k' = gs_run d') ->
   ginv strict (mkRst k' (r_v s) (q_c s ++ em) qs' (h_c s ++ em) (h_s s) (n_inv s)).
 Proof.
-  intros [Hk Hv Hgc Hgs Hq Hn] He Hs qs' Hqs.
-  destruct (kstep_ok _ _ _ _ Hk He Hs) as (Hk' & Hem & Hg).
+  intros [Hk Hv Hgc Hgs Hq Hn Hd] He Hs qs' Hqs Hd'.
+  destruct (kstep_ok _ _ _ _ Hk He Hs) as (Hk' & Hem & Hg & _).
   constructor; cbn; auto.
   - rewrite gc_run_app, <- Hgc. exact Hg.
   - unfold kem_ok in Hem. destruct (seen (r_v s)) eqn:Es.
@@ -65,7 +73,7 @@ Lemma ginv_step_v strict s l v' em :
                | _ => qc' = q_c s end) ->
   ginv strict (mkRst (r_k s) v' qc' (q_s s ++ em) (h_c s) (h_s s ++ em) (n_inv s + invoked (r_v s) v')).
 Proof.
-  intros [Hk Hv Hgc Hgs Hq Hn] He Hs qc' Hqc.
+  intros [Hk Hv Hgc Hgs Hq Hn Hd] He Hs qc' Hqc.
   destruct (vstep_ok _ _ _ _ _ Hv He Hs) as (Hv' & Hem & Hg).
   unfold vem_ok in Hem. apply andb_true_iff in Hem. destruct Hem as [Hem Hem3].
   apply andb_true_iff in Hem. destruct Hem as [Hem1 Hem2].
@@ -91,6 +99,7 @@ Proof.
   - (* invocations *)
     rewrite Hn. unfold invoked, h_live.
     destruct (v_h (r_v s)), (v_h v'); try discriminate; reflexivity.
+  - destruct Hd as (d & Hd1 & Hd2). exists d. split; [rewrite Hd1, app_assoc; reflexivity | exact Hd2].
 Qed.
 
 Lemma ginv_step strict s l s' : ginv strict s -> rstep strict s l = Some s' -> ginv strict s'.
@@ -100,7 +109,10 @@ Proof.
     destruct l; try discriminate;
       match type of H with context [kstep ?k ?l] => destruct (kstep k l) as [[k' em]|] eqn:Hs; [|discriminate] end;
       inversion H; subst s'; clear H;
-      refine (ginv_step_k strict s _ k' em I _ Hs (q_s s) _); solve [reflexivity | auto].
+      (refine (ginv_step_k strict s _ k' em I _ Hs (q_s s) _ _); [reflexivity | auto |]);
+      (destruct I as [Hk0 _ _ _ _ _ (d & Hd1 & Hd2)]; exists d; split; [exact Hd1|];
+       match goal with Hs : kstep _ ?l = _ |- _ => destruct (kstep_ok _ l _ _ Hk0 eq_refl Hs) as (_ & _ & _ & Hgin) end;
+       cbn in Hgin; rewrite Hgin; exact Hd2).
   - (* LKLoop *)
     destruct (q_s s) as [|f r] eqn:Eq; [discriminate|].
     destruct (kstep (r_k s) (CLoop f bad)) as [[k' em]|] eqn:Hs; [|discriminate].
@@ -108,8 +120,20 @@ Proof.
     assert (Hseen : seen (r_v s) = true).
     { destruct I as [_ _ _ _ Hq _]. destruct (seen (r_v s)); auto. destruct Hq as [Hq _]. congruence. }
     assert (He : kenv (r_k s) (CLoop f bad) = true).
-    { cbn. destruct I as [_ _ _ _ Hq _]. rewrite Hseen in Hq. tauto. }
-    apply (ginv_step_k strict s _ k' em I He Hs r). congruence.
+    { cbn. pose proof I as [_ Hv0 _ Hgs0 Hq _ (d & Hd1 & Hd2)]. rewrite Hseen in Hq. destruct Hq as [_ Hq]. rewrite Hq. cbn.
+      (* the frame at the head of the queue extends what was taken to a prefix of the server's conforming history *)
+      apply negb_true_iff. destruct (gs_eqb (gs_step (k_gin (r_k s)) f) GsBad) eqn:E; [|reflexivity]. exfalso.
+      apply gs_eqb_eq in E.
+      assert (Hnb : gs_run (h_s s) <> GsBad).
+      { rewrite <- Hgs0. intros Eb.
+        assert (Hx : negb (gs_eqb (v_g (r_v s)) GsBad) = true) by (apply (vP_notbad strict); exact Hv0).
+        rewrite Eb in Hx. discriminate. }
+      rewrite Hd1, Eq in Hnb. change (d ++ f :: r) with (d ++ [f] ++ r) in Hnb. rewrite app_assoc in Hnb.
+      apply gs_prefix_ok in Hnb. apply Hnb. rewrite gs_run_app. cbn. rewrite <- Hd2. exact E. }
+    refine (ginv_step_k strict s _ k' em I He Hs r _ _); [congruence|].
+    destruct I as [Hk0 _ _ _ _ _ (d & Hd1 & Hd2)]. exists (d ++ [f]). split.
+    + rewrite Hd1, Eq, <- app_assoc. reflexivity.
+    + destruct (kstep_ok _ _ _ _ Hk0 He Hs) as (_ & _ & _ & Hgin). rewrite Hgin, gs_run_app, <- Hd2. reflexivity.
   - (* LV *)
     destruct l; try discriminate;
       match type of H with context [vstep ?st ?v ?l] => destruct (vstep st v l) as [[v' em]|] eqn:Hs; [|discriminate] end;
@@ -152,12 +176,8 @@ Proof. apply rpc_run_from, ginv_init. Qed.
 (* ---------- the two grammars, read on histories ---------- *)
 Lemma gc_bad_absorbing fs : fold_left gc_step fs GcBad = GcBad.
 Proof. induction fs as [|f fs IH]; cbn; auto. Qed.
-Lemma gs_bad_absorbing fs : fold_left gs_step fs GsBad = GsBad.
-Proof. induction fs as [|f fs IH]; cbn; auto. Qed.
 Lemma gc_prefix_ok a b : gc_run (a ++ b) <> GcBad -> gc_run a <> GcBad.
 Proof. rewrite gc_run_app. intros H E. rewrite E, gc_bad_absorbing in H. congruence. Qed.
-Lemma gs_prefix_ok a b : gs_run (a ++ b) <> GsBad -> gs_run a <> GsBad.
-Proof. rewrite gs_run_app. intros H E. rewrite E, gs_bad_absorbing in H. congruence. Qed.
 
 (* after a half-close any request data, or a second half-close, is a violation *)
 Lemma gc_after_half post : forall c, In FReq post \/ In FHalf post -> fold_left gc_step post (GcOpen true c) = GcBad.
